@@ -176,7 +176,12 @@ uint32_t cop_deserialize_value(const uint8_t *buf, uint32_t buf_size,
         uint32_t count;
         memcpy(&count, buf + pos, 4);
         pos += 4;
+        /* Every element takes at least one byte (its tag): a count larger
+         * than what is left cannot be genuine and must not drive the
+         * allocation below. */
+        if (count > buf_size - pos) return 0;
         VmArray *arr = vm_array_new(heap, etype, count > 0 ? count : 4);
+        if (!arr) return 0;
         for (uint32_t i = 0; i < count; i++) {
             NanoValue elem;
             uint32_t n = cop_deserialize_value(buf + pos, buf_size - pos,
